@@ -1,5 +1,5 @@
 \* C17 quick: simulated histories with mapping changes, plain
-\* run by hand:  cd spec && tlc -workers 8 RunGenSketch.tla -config cfg/C17__RunGenSketch__simulated_histories_with_mapping_changes_plain.cfg -simulate num=375 -depth 11 -seed 2   (root module generated by the harness: see the .tla file next to this one; copy it to spec/ first)
+\* run by hand:  cd spec && tlc -workers 8 RunGenSketch.tla -config cfg/C17__RunGenSketch__simulated_histories_with_mapping_changes_plain.cfg -simulate num=375 -depth 11 -seed 1   (root module generated by the harness: see the .tla file next to this one; copy it to spec/ first)
 INIT GenInit
 NEXT GenNext
 CONSTANTS
